@@ -8,10 +8,17 @@ import (
 
 // One PRNG; every random choice in a run derives from it.
 type Gen struct {
-	r *rand.Rand
+	r     *rand.Rand
+	seed0 int64
 }
 
-func NewGen(seed int64) *Gen { return &Gen{r: rand.New(rand.NewSource(seed))} }
+func NewGen(seed int64) *Gen {
+	s0 := seed
+	if s0 < 0 {
+		s0 = -s0
+	}
+	return &Gen{r: rand.New(rand.NewSource(seed)), seed0: s0}
+}
 
 func (g *Gen) Intn(n int) int       { return g.r.Intn(n) }
 func (g *Gen) Bool() bool           { return g.r.Intn(2) == 0 }
